@@ -312,6 +312,7 @@ void ICACHE_FLASH_ATTR
 supla_esp_update_recv_cb (void *arg, char *pdata, unsigned short len) {
 
 	int a;
+	int content_pos = 0; // first body byte in this segment
 
 	if ( len == 0 )
 		return;
@@ -345,6 +346,7 @@ supla_esp_update_recv_cb (void *arg, char *pdata, unsigned short len) {
 
 				update->http_header_data[MAX_HTTP_HEADER_SIZE-1] = 0;
 				update->http_header_matched=1;
+				content_pos = a+1;
 
 				char *str;
 
@@ -429,7 +431,7 @@ supla_esp_update_recv_cb (void *arg, char *pdata, unsigned short len) {
 
 		//supla_log(LOG_DEBUG, "FUPDT_STEP_DOWNLOADING, %i, %i", update->downloaded_data_size, update->expected_file_size);
 
-		supal_esp_update_download(&pdata[update->http_header_data_len], len-update->http_header_data_len);
+		supal_esp_update_download(&pdata[content_pos], len-content_pos);
 		update->http_header_data_len=0;
 
 		if ( update->downloaded_data_size == update->expected_file_size ) {
